@@ -58,6 +58,11 @@ PROJ = {"unit": "zero", "struct": "zero", "dupfd": "zero", "sid": "zero", "fd": 
         "pid": "i32", "plain_pid": "i32", "u32": "u32", "count_rw": "same", "count_int": "same", "reg": "same",
         "addr": "same", "off": "same", "pidu64": "same", "wpid": "i32", "errs": "zero"}
 SUCC["pidu64"] = PIDS
+# register values outside [-4095,-1] that do not fit the i32-typed result of descriptor / flag wrappers: the
+# statement still demands Ok (Err exactly for [-4095,-1]); the carried value cannot be "unchanged", so these
+# are judged on Ok-vs-Err (and panic) only
+WIDE = [-4096, -4097, 2 ** 31, 2 ** 32 - 4095, 2 ** 32 - 1, 2 ** 32, 2 ** 47]
+WIDE_KINDS = ("fd", "flags")
 
 
 def W(nr, kind, real=(0,), forced_success=True):
@@ -240,6 +245,12 @@ def judge(name, mode, x, rets, out):
             viol.append(("C09/%s/errno-not-negated" % name, "kernel %d decoded as Err(code %d)" % (r, val)))
         elif val != -r:
             viol.append(("C09/%s/errno-wrong" % name, "kernel %d decoded as Err(code %d)" % (r, val)))
+    elif info["kind"] in WIDE_KINDS and not 0 <= r <= I32MAX:
+        if kind == 1 and extra == 1 and not info["forced_success"]:
+            return viol, "%s: Err without code on a forced wide result with unwritten out-parameters" % row
+        if kind == 1:
+            viol.append(("C09/%s/success-reported-as-error-wide-register" % name,
+                         "kernel %d (outside [-4095,-1]) decoded as Err(code %d)" % (r, val)))
     else:
         want = project(info["kind"], r)
         if kind == 1:
@@ -311,7 +322,10 @@ def run_shard(job):
             else:
                 bump("forced_success_cases")
                 pw[1] += 1
-                res["distinct"].add("%s/ok-%s" % (name, label(x)))
+                wide = TABLE[name]["kind"] in WIDE_KINDS and not 0 <= x <= I32MAX
+                if wide:
+                    bump("forced_wide_register_cases")
+                res["distinct"].add("%s/%s-%s" % (name, "wide" if wide else "ok", label(x)))
             res["pairs"].add((w, x))
         else:
             bump("real_cases")
@@ -443,6 +457,9 @@ def build_cases(ck, ids, quick, only=None):
         if info["kind"] != "plain_pid":
             for e in errnos:
                 cases.append((w, 0, -e))
+        if info["kind"] in WIDE_KINDS:
+            for v in WIDE:
+                cases.append((w, 0, v))
         if info["forced_success"]:
             vals = list(SUCC[info["kind"]])
             vals += [v for v in random_values(rng, info["kind"], 32 if quick else 2048) if v not in vals]
@@ -596,14 +613,16 @@ def run(ck, replay=None):
     ck.extra["errno_cases_for_exhaustive_run"] = want_err
     ck.assume("sysmon (ptrace) suppresses the system call and writes the forced value into the return register; "
               "the first forced value of every case is cross-checked against the log")
-    ck.assume("success values are limited to what the kernel can return for the call's result type; wrappers whose "
-              "result is written by the kernel into caller memory get forced errors and real successes only")
+    ck.assume("value-compared success values are limited to what the kernel can return for the call's result type; "
+              "wrappers whose result is written by the kernel into caller memory get forced errors, real successes and "
+              "(descriptor-typed ones) wide-register results judged on Ok-vs-Err only")
     ck.assume("x86_64 system call numbers; dup2/dup3 may repeat the call after EBUSY, nothing else may repeat")
     ck.assume("excluded: exit, rt_sigreturn (never return), setup_io_uring (compound, C12/C18), "
               "clock_get_real_time/clock_get_monotonic_time (no Result)")
     return ("for each of the %d public wrappers (%d rows with second argument shapes): forced kernel results -e for %s, every success class of the result type "
             "(0, small values incl. 16, 4095/4096, type maximum, 2^31..2^63 and -4096/-4097 for register-wide types) plus "
-            "seeded random values of the type's kernel domain, "
+            "seeded random values of the type's kernel domain, for descriptor/flag-typed wrappers also register values that "
+            "do not fit i32 (-4096, -4097, 2^31, 2^32-4095, 2^32-1, 2^32, 2^47; judged on Ok-vs-Err only), "
             "and real calls on harmless arguments (descriptor 16 provoked for descriptor-returning calls, dup targets "
             "3/15/16/17); each case judged on the logged return values of the expected system call between its markers "
             "(count of issues, Err/Ok, code, value); distinct = (wrapper, errno class | success value class | real outcome); the exhaustive flag refers to the "
